@@ -121,6 +121,31 @@ theorem terminal_table_after_render (ops : List WOp) (op : WOp) (hop : op = .ren
   rw [World.run, List.foldl_append]
   rcases hop with rfl | rfl <;> rfl
 
+/-- The same in terms of the op list alone: right after a `Render` / `Refresh` the terminal's placement table is the
+    table of what the application drew since the last `Clear`. -/
+theorem terminal_shows_what_was_drawn (ops : List WOp) (op : WOp) (hop : op = .render ∨ op = .refresh)
+    (h : FramesKeyFun [] (ops ++ [op])) :
+    ∀ k, (World.init.run (ops ++ [op])).term.places k = tableOf (drawnSinceClear [] ops) k := by
+  intro k
+  rw [terminal_table_after_render ops op hop h k, next_is_drawn]
+  rfl
+
+/-- **The placement id addresses (column, row)**: the regenerated expression is `uint(col)<<16 | uint(row)`, and for
+    origins within 0..65535 in both coordinates two origins get the same id only when they are the same — so the
+    model's key (image id, col, row) is what a kitty delete / placement command is addressed by. -/
+theorem placement_id_injective :
+    kittyPidShift = some 16 ∧
+    ∀ c r c' r' : Nat, c < 65536 → r < 65536 → c' < 65536 → r' < 65536 → pidOf c r = pidOf c' r' → c = c' ∧ r = r' := by
+  have h : kittyPidShift = some 16 := by decide
+  refine ⟨h, ?_⟩
+  intro c r c' r' _ hr _ hr' he
+  unfold pidOf at he
+  rw [h] at he
+  simp only [Option.map_some, Option.some.injEq] at he
+  rw [← Nat.shiftLeft_add_eq_or_of_lt (by omega : r < 2 ^ 16), ← Nat.shiftLeft_add_eq_or_of_lt (by omega : r' < 2 ^ 16),
+    Nat.shiftLeft_eq, Nat.shiftLeft_eq] at he
+  omega
+
 /-- **The order of the two loops matters** (what seeded change C20-m6 does): with the write loop before the delete loop
     — same statements, same sets of commands per frame — an image resized in place (drawn again at the same origin with
     another cell size) is placed and then removed by the delete of the old placement, which has the same placement id:
